@@ -728,6 +728,8 @@ func (fr *Frame) loopWrites(li *loopInfo) (map[string]bool, bool) {
 				d, v := fr.vc.mapNames(mt)
 				mod[d], mod[v], mod["ML"] = true, true, true
 				fr.vc.regHeap("ML", "(Array Int Int)")
+			case *ssa.Go:
+				// effects of a started goroutine are not sequenced with this function (A4)
 			case ssa.CallInstruction:
 				names, a := fr.callWrites(x)
 				if a {
